@@ -310,6 +310,12 @@ func giantFaultCase(c *mon.Ctx, idx int64, r *rand.Rand) {
 		counts[u.PID] += len(u.Plan)
 	}
 	s := gen.Mux(map[uint16][]*gen.Unit{0x100: us, 0x101: small}, gen.RandomOrder(r, counts, []uint16{0x100, 0x101}, nil), nil)
+	if idx%2 == 0 && len(us[2].Pkts) > 120 {
+		// packet 116 of the filler unit equals packet 100 in counter and payload but not in its header (transport_priority): a
+		// different packet, not a duplicate (ISO 13818-1 2.4.3.3: a duplicate repeats every byte but the PCR)
+		s.Packets[us[2].Pkts[116]].Header.TransportPriority = true
+		s.Encode()
+	}
 	cr := newCleanRef(c, "giant", idx, s, &gen.Model{})
 	if cr == nil {
 		return
@@ -353,6 +359,12 @@ func giantFaultCase(c *mon.Ctx, idx int64, r *rand.Rand) {
 			}
 		})
 	}
+	// 15 packets lost, the survivor carries the counter and the payload of the last packet before the gap, but another header
+	plan(func(f []fkind) {
+		for q := 1; q <= 15; q++ {
+			f[at(us[2], 100+q)] = fDel
+		}
+	})
 	plan(func(f []fkind) { f[at(us[2], 0)] = fTEI })
 	plan(func(f []fkind) { f[at(us[2], 0)] = fAFOnly; whole(f, us[1]) })
 	for q := 0; q < 6; q++ {
